@@ -153,6 +153,9 @@ func runC14(c *Ctx) {
 	if c.Arg == "C06" {
 		c14Prop = "C06"
 	}
+	if c.Arg == "C15" {
+		c14Prop = "C15"
+	}
 	r.Rule = "(A) directed: position of the racing call in {before the grab, after the grab, before the key's check, between check and removal} x racing call in {rewrite later ttl, no ttl, shorter ttl, Del, Del+re-insert} x the key is the 1st/2nd/last visited of its bucket; (B) late application: a short-ttl insert waits in the write buffer until its bucket lies behind the sweep frontier; (C) stress with delays at the sweep points. distinct by (kind, position, call, nth, outcome class); non-trivial when at least one entry expired"
 	ristretto.VerifSetBucketSeconds(1)
 	rounds := c.N(2, 16)
@@ -162,6 +165,9 @@ func runC14(c *Ctx) {
 		calls := []string{"later", "none", "shorter", "del", "del-reinsert", "fresh-short"}
 		if c14Prop == "C06" {
 			calls = []string{"later", "none", "del-reinsert"}
+		}
+		if c14Prop == "C15" {
+			positions = nil
 		}
 		for _, p := range positions {
 			for _, cl := range calls {
@@ -182,6 +188,9 @@ func runC14(c *Ctx) {
 		for i := 0; i < 2 && c14Prop == "C14"; i++ {
 			cases = append(cases, c14Case{Kind: "backlog"})
 		}
+		for i := 0; i < 3 && (c14Prop == "C14" || c14Prop == "C15"); i++ {
+			cases = append(cases, c14Case{Kind: "after-clear", Nth: i})
+		}
 		var wg sync.WaitGroup
 		for i := range cases {
 			if (i+round)%c.NParts != c.Part {
@@ -200,6 +209,8 @@ func runC14(c *Ctx) {
 					c14Stress(c, cs)
 				case "backlog":
 					c14Backlog(c, cs)
+				case "after-clear":
+					c14AfterClear(c, cs)
 				}
 			}(cases[i])
 		}
@@ -1004,5 +1015,66 @@ func c14Backlog(c *Ctx, cs c14Case) {
 	l.C.Close()
 	if !e.bad {
 		r.Sample(1, map[string]any{"case": cs, "trace": e.trace})
+	}
+}
+
+// c14AfterClear: "after Clear ... the cache accepts and serves new writes as a fresh one would" for TTL entries: an
+// entry written with a short TTL after 0, 1 or 2 Clears must be reclaimed by expiry processing like on a fresh
+// cache. Verdict in wall time with a canary (a ticker-driven sweep that never comes cannot be counted in sweeps):
+// 4 s after the entry's bucket became sweepable (8 ticker periods of an idle applier) it must be gone, unless the
+// canary saw the process stall.
+func c14AfterClear(c *Ctx, cs c14Case) {
+	r := c.R
+	r.Eval(1)
+	c.J.Case(cs)
+	e := newC14Env(c, cs, 4, 0)
+	if e == nil {
+		return
+	}
+	defer e.l.Forget()
+	l, cl := e.l, e.cl
+	defer l.C.Close()
+	canary := lab.NewWatchdog(1, time.Hour, func(string, bool, string) {})
+	defer canary.Stop()
+	nclears := cs.Nth
+	for i := 0; i < nclears; i++ {
+		cl.Set(1, cl.NextVal(1), 1, 0)
+		cl.Set(2, cl.NextVal(2), 1, 200*time.Millisecond)
+		cl.Wait()
+		cl.Clear()
+	}
+	alignToBucket()
+	const ttl = 300 * time.Millisecond
+	v := cl.NextVal(0)
+	if !cl.Set(0, v, 1, ttl) {
+		r.Inconc(1)
+		return
+	}
+	cl.Wait()
+	t1 := time.Now()
+	sweepable := time.Unix(ristretto.VerifStorageBucket(t1.Add(ttl)), 0)
+	for time.Now().Before(sweepable.Add(4 * time.Second)) {
+		time.Sleep(50 * time.Millisecond)
+	}
+	l.C.Pause()
+	snap := l.C.Snapshot()
+	l.C.Resume()
+	_, accounted := snap.KeyCosts[l.Hashes[0][0]]
+	stored := false
+	for _, en := range snap.Entries {
+		if en.Value == v {
+			stored = true
+		}
+	}
+	ev, ex := valueEvents(l.CallbacksSince(0), v)
+	e.tr("%d Clear(s) before; entry with ttl %v sweepable since %v; stored=%v accounted=%v OnEvict=%d OnExit=%d; sweeps completed %d; canary max late %d ms", nclears, ttl, sweepable.Format("15:04:05"), stored, accounted, ev, ex, e.sw.sweepCount(), canary.MaxLateMs())
+	r.Obs("after_clear_cases", 1)
+	switch {
+	case canary.MaxLateMs() > 1000:
+		r.Inconc(1)
+	case stored || accounted || ev != 1 || ex != 1:
+		e.fail(fmt.Sprintf("expired-entry-not-reclaimed-after-%d-clears", nclears), fmt.Sprintf("an entry written with ttl %v after %d Clear(s) has been sweepable for 4 s on an idle cache but is still stored=%v accounted=%v (OnEvict=%d OnExit=%d, %d sweeps completed since creation): the cache does not expire entries as a fresh one would", ttl, nclears, stored, accounted, ev, ex, e.sw.sweepCount()))
+	default:
+		r.DistinctKey("after-clear/%d/reclaimed", nclears)
 	}
 }
